@@ -97,6 +97,50 @@ theorem parseLine_none_iff (s : String) :
   · intro h
     rw [h]
 
+/-- Where an item comes from: the line is `P->V[<range>: /cpu air/<path>: <label…>: <Kind>(<payload>)`; slot, kind
+    and values are `parsePath path`, `parseKind Kind` and `parsePayload kind payload`, and the kind is one the
+    path may carry.  In particular a line of a known class whose payload does not parse is an ERROR
+    (it can be neither `ok none`, by `parseLine_none_iff`, nor `ok (some _)`, by this lemma). -/
+theorem parseLine_some {s : String} {it : Item} (h : parseLine s = .ok (some it)) :
+    ∃ rest rng path lbl more p kn payload,
+      stripPrefix? "P->V[".toList s.toList = some rest ∧
+      split2 ':' ' ' rest [] = rng :: path :: lbl :: more ∧ isRange rng = true ∧
+      stripPrefix? "/cpu air/".toList path = some p ∧
+      splitKindPayload ((lbl :: more).getLast?.getD []) = some (kn, payload) ∧
+      parsePath p = some it.slot ∧ parseKind kn = some it.kind ∧ kindAllowed it.slot it.kind = true ∧
+      parsePayload it.kind payload = some it.values := by
+  unfold parseLine at h
+  split at h
+  · cases h
+  rename_i rest hrest
+  split at h
+  · rename_i rng path lbl more hsplit
+    split at h
+    · cases h
+    rename_i hrng
+    split at h
+    · cases h
+    rename_i p hp
+    split at h
+    · cases h
+    rename_i slot hslot
+    split at h
+    · cases h
+    rename_i kn payload hkp
+    split at h
+    · cases h
+    rename_i kind hkind
+    split at h
+    · cases h
+    rename_i hallowed
+    split at h
+    · cases h
+    rename_i vs hvs
+    cases h
+    exact ⟨rest, rng, path, lbl, more, p, kn, payload, hrest, hsplit, by simpa using hrng, hp, hkp, hslot, hkind,
+      by simpa using hallowed, hvs⟩
+  · cases h
+
 theorem parseAnnotations_ok {lines : List String} {items : List Item}
     (h : parseAnnotations lines = .ok items) :
     (∀ l ∈ lines, ∃ r, parseLine l = .ok r) ∧ items = lines.filterMap item? := by
